@@ -420,7 +420,8 @@ static Boolean DecodeIntName(char* Asc, Byte* Erg) {
         HErg = 0x104;
     } else if (!strcmp(Asc, "IECSI")) {
         HErg = 0x005;
-    } else if (!strcmp(Asc, "IECSIO")) {
+    } else if (!strcmp(Asc, "IECSIO") || !strcmp(Asc, "IESIO")) {
+        /* uPD751xx / 752xx / 755xx: the serial interface flag is named IESIO (see STDDEF75.INC) */
         HErg = 0x205;
     } else if (!strcmp(Asc, "IE0")) {
         HErg = 0x006;
